@@ -533,6 +533,10 @@ func blockRun(r *vh.Run, idx int) {
 		return
 	}
 	if mode == 5 {
+		if (idx/6)%2 == 1 {
+			countPruneNextUsedWhileParked(r, idx, rng)
+			return
+		}
 		countPruneUsedWhileParked(r, idx, rng)
 		return
 	}
@@ -833,6 +837,77 @@ func expiryCleanupParked(r *vh.Run, idx int, rng *rand.Rand) {
 // hook (in the directory store: for the upload mutex, held by a write in progress).  The entry is used meanwhile - it
 // is now the most recently used one.  When the hook returns, evicting it anyway while older entries stay is not
 // "least-recently-used first" any more (the age prune re-checks at this point; so must the count prune).
+// countPruneNextUsedWhileParked: a prune that has more than one entry to evict parks in the pre hook of the first.
+// Meanwhile the SECOND least recently used entry is used.  When the prune goes on, that entry is the most recently
+// used one: the next victim is the one after it ("least-recently-used first" is read when the victim is taken, not
+// from a list made before the wait).
+func countPruneNextUsedWhileParked(r *vh.Run, idx int, rng *rand.Rand) {
+	count := 20 + 10*rng.Intn(3)
+	gate := make(chan struct{})
+	started := make(chan struct{}, 8)
+	o := cache.Opts[int, int64]{Count: count,
+		PruneFn: func(int, int64) error { return nil },
+		PrunePreFn: func(k int, v int64) {
+			if v == 1 {
+				select {
+				case started <- struct{}{}:
+				default:
+				}
+				<-gate
+			}
+		},
+		PrunePostFn: func(int, int64) {},
+	}
+	ca := cache.New[int, int64](o)
+	for k := 0; k < count; k++ {
+		ca.Set(k, int64(k+1))
+		time.Sleep(300 * time.Microsecond)
+	}
+	ca.Set(count, int64(count+1))
+	wit := map[string]any{"batch": idx, "mode": "5b", "count": count}
+	select {
+	case <-started:
+	case <-time.After(10 * time.Second):
+		r.Count("block_not_reached", 1)
+		close(gate)
+		return
+	}
+	r.Count("runs_block", 1)
+	_, err := ca.Get(1)
+	r.Count("block_observations_before_release", 1)
+	close(gate)
+	if err != nil {
+		return
+	}
+	var keys []int
+	for k := 0; k < 400; k++ {
+		keys, _ = ca.List()
+		if len(keys) < count {
+			break
+		}
+		time.Sleep(5 * time.Millisecond)
+	}
+	time.Sleep(5 * time.Millisecond)
+	keys, _ = ca.List()
+	surv := map[int]bool{}
+	for _, k := range keys {
+		surv[k] = true
+	}
+	older := []int{}
+	for k := 2; k <= count; k++ {
+		if surv[k] {
+			older = append(older, k)
+		}
+	}
+	r.Count("lru_comparisons", 1)
+	if !surv[1] && len(older) > 0 {
+		wit["survivors"] = len(keys)
+		r.Violation("cache:eviction is not least-recently-used first:next", fmt.Sprintf("limit %d, %d entries: the count prune parked in the pre hook of key 0; key 1 was used meanwhile (now the most recently used entry) and was evicted all the same, while %d older entries stayed", count, count+1, len(older)), wit)
+	}
+	r.Distinct("configs", fmt.Sprintf("block/5b/%d", count))
+	_ = ca.DeleteAll()
+}
+
 func countPruneUsedWhileParked(r *vh.Run, idx int, rng *rand.Rand) {
 	count := 2 + rng.Intn(3)
 	gate := make(chan struct{})
